@@ -492,7 +492,11 @@ def c01(tier, seed):
         c.add(Run("h_units", ("asan", "mon", "tsan")[i % 3] if not q else ("asan", "tsan")[i % 2],
                   ["--seed", s, "--mode", "stackrace", "--scenarios", 10 if q else 40, "--delay", srp[i % 3],
                    "--watchdog", 90], weight=4, tag="stackrace%d" % i))
+    for i, s in enumerate(seeds(seed, 2 if q else 10, salt=4)):
+        c.add(Run("h_units", "mon", ["--seed", s, "--mode", "joinmix", "--scenarios", 60 if q else 300, "--delay",
+                                     profiles[i % 4], "--watchdog", 90], weight=4, tag="joinmix%d" % i))
     c.nontrivial = lambda r: ((r.result or {}).get("counters", {}).get("units", 0) >= 50 or
+                              (r.result or {}).get("counters", {}).get("joinmix_units", 0) >= 50 or
                               (r.result or {}).get("counters", {}).get("stacked_schedulers_added", 0) >= 20)
     c.required_points = ["CREATE_AFTER_PUSH", "POP_BECAME_EMPTY", "POP_LOCK_CONTENDED", "EXIT_JUMP_TO_JOINER", "EXIT_PUSH_JOINER",
                          "EXIT_FUTEX_JOINER", "JOIN_YIELD_LOOP", "JOIN_SUSPEND"]
@@ -561,7 +565,11 @@ def c06(tier, seed):
               "pools, 1-24 units with 1-5 blocking steps (eventual, cond, self_suspend, mutex, join, yield) of which 2/3 carry "
               "a migration request to a random pool when they block and 1/3 get one while blocked: at every all-blocked "
               "point each pool's counter must equal the number of blocked units associated with it, all counters are 0 at "
-              "the end and every stream can be joined; forest case = a C01 program (xstream_join "
+              "the end and every stream can be joined; joinmix case = a victim stream whose scheduler has 2-4 pools (a pool "
+              "shared with a helper stream listed first or last, then private pools holding 1-38 units) is joined at once, or "
+              "joined while a unit of it replaces the main scheduler after the join was issued, or joined, revived, left idle "
+              "0.5-3.5 ms, given new work and joined again (1-3 rounds): every unit ran exactly once when each join returns; "
+              "forest case = a C01 program (xstream_join "
               "and finalize complete pending unnamed units); distinct = distinct (variant, delay, configuration x scenario "
               "variant x size-class signature)")
     c.assumptions = ["the blocked counter is read white-box (p_pool->num_blocked) from the statically linked harness and via "
@@ -583,13 +591,19 @@ def c06(tier, seed):
         c.add(Run("h_units", "mon", ["--seed", s, "--mode", "forest", "--programs", 12 if q else 40, "--max-units", 500,
                                      "--delay", profiles[i % 4], "--watchdog", 60 if q else 400], weight=6,
                   tag="forest%d" % i))
+    # joins with multi-pool schedulers, joins overlapping a scheduler replacement, join-revive-idle-work-join
+    for i, s in enumerate(seeds(seed, 3 if q else 20, salt=5)):
+        c.add(Run("h_units", ("mon", "mon", "asan")[i % 3] if q else ("mon", "mon", "mon", "asan", "tsan")[i % 5],
+                  ["--seed", s, "--mode", "joinmix", "--scenarios", 60 if q else 400, "--delay", profiles[i % 4],
+                   "--watchdog", 90 if q else 600], weight=4, tag="joinmix%d" % i))
     # blocked counters under migration: requests pending when a unit blocks / issued while it is blocked
     for i, s in enumerate(seeds(seed, 3 if q else 24, salt=4)):
         c.add(Run("h_units", ("mon", "mon", "tsan")[i % 3] if q else ("mon", "mon", "mon", "asan", "tsan")[i % 5],
                   ["--seed", s, "--mode", "blockmig", "--scenarios", 25 if q else 150, "--delay", profiles[i % 4],
                    "--watchdog", 90 if q else 600], weight=4, tag="blockmig%d" % i))
     c.nontrivial = lambda r: True
-    c.required_counters = ["blockmig_exact_counter_checks", "migration_requests_pending_when_blocking",
+    c.required_counters = ["joinmix_multi_pool_joins", "joinmix_joins_overlapping_sched_replacement",
+                           "joinmix_revive_idle_work_join_rounds", "blockmig_exact_counter_checks", "migration_requests_pending_when_blocking",
                            "migration_requests_issued_while_blocked", "units_resumed_in_another_pool",
                            "blockmig_step_eventual", "blockmig_step_cond", "blockmig_step_self_suspend",
                            "blockmig_step_mutex", "blockmig_step_join",
@@ -675,7 +689,7 @@ def c12(tier, seed):
     c.required_counters = ["epochs", "behaviour_return", "behaviour_yields", "behaviour_self_exit", "behaviour_thread_exit",
                            "behaviour_until-cancelled", "behaviour_block-then-return", "cancel-before-start",
                            "cancel-while-running", "cancel-while-blocked", "revives", "state_samples", "tasklet_epochs",
-                           "cancelled_units_never_started"]
+                           "cancelled_units_never_started", "cancel_pending_when_unit_blocks"]
     c.required_points = ["SCHEDULE_CANCELLED"]
     return c
 
